@@ -31,7 +31,7 @@ HOPS = {'hashjoin': 'join', 'hashleftjoin': 'leftjoin', 'hashrightjoin': 'rightj
 LOOKUPS = ['lookup', 'lookupone', 'dictlookup', 'dictlookupone', 'recordlookup', 'recordlookupone']
 REQUIRED = (['op:' + o for o in HOPS] + ['op:' + o for o in LOOKUPS] +
             ['build-side-duplicates', 'build-side-empty', 'none-key-both-sides', 'pass2-served-from-cached-lookup',
-             'pass2-cache-off-reflects-edit', 'strict-raised', 'strict-not-raised', 'prefilled-dictionary', 'copying-dictionary'])
+             'pass2-cache-off-reflects-edit', 'strict-raised', 'strict-not-raised', 'prefilled-dictionary', 'copying-dictionary', 'lookup-value-by-index-0'])
 
 KPOOL = [None, 1, 1.0, True, 2, 'a', b'a', 'b', (1, 2), gen.D(2020, 1, 1)]
 
@@ -136,6 +136,9 @@ def cases(ctx):
         if fn in ('lookup', 'lookupone') and rng.random() < 0.5:
             vf = [f for f in hdr if f not in keyf] or [hdr[-1]]
             kw['value'] = vf[0] if (len(vf) == 1 or rng.random() < 0.6) else tuple(vf)
+            if rng.random() < 0.3:
+                # the value selection by position (index 0 included), one index or several
+                kw['value'] = rng.choice([0, 0, len(hdr) - 1, (0,), tuple(range(len(hdr)))[::-1][:2]])
         if fn.endswith('one'):
             kw['strict'] = rng.random() < 0.5
         kw['prefill'] = rng.random() < 0.3
@@ -378,6 +381,8 @@ def _judge_lookup(case, ctx):
     kw = {}
     if value is not None:
         kw['value'] = value
+        if value == 0 and isinstance(value, int):
+            ctx.seen('lookup-value-by-index-0')
     if one and strict:
         kw['strict'] = True
     d = None
